@@ -102,9 +102,9 @@ CHECKS = {
             "'Eventually' is bounded polling (INCONCLUSIVE, exit 2, when a task is still listed as running after the bound). Trusts the Mongo stub's query semantics and oracle.rs.",
             "DESIGN.md §6 C16"),
     "C17": ("exploration",
-            "model-based stateful property-based testing (proptest request histories by several persons) of the real server binary, with database inspection after every step",
+            "model-based stateful property-based testing (proptest request histories by several persons) of the real server binary with database inspection after every step, plus schedule-owning runs (a request paused between two database commands by the stub)",
             "Generated multi-person request histories are executed against the server built from the current tree; a reference model predicts every response, a model-free marker invariant detects any cross-user leak, and the stub database is inspected after every step for ownership and credential storage (salted argon2 hash, no plaintext, fresh salts).",
-            "Request-granularity interleavings; persons never share passwords (shared accounts / stale cookies out of scope); hash checked by format, non-containment and salt freshness.",
+            "Request-granularity interleavings plus one request paused at database-command granularity; persons never share passwords (shared accounts / stale cookies out of scope); hash checked by format, non-containment and salt freshness.",
             "DESIGN.md §6 C17"),
 }
 
